@@ -221,7 +221,7 @@ WIDE_RATIOS = [Fraction(1, 10 ** 4), Fraction(3, 10 ** 5), Fraction(1, 10 ** 5),
 MILD_RATIOS = [Fraction(1, 3), Fraction(1, 10)]
 
 
-def wide_profile(rng, D, g, second=False):
+def wide_profile(rng, D, g, second=False, w=None):
     """principal standard deviations 1 = s_0 > s_1 > ... > s_(D-1): a WIDE ratio (1e-4, 3e-5, 1e-5, 1e-6 or 1e-7) between
     s_(g-1) and s_g, mild ratios (1/3, 1/10) elsewhere (`second`: one more wide ratio at a random place when the whole
     span stays >= 1e-7, i.e. variances down to 1e-14 of the largest).  Every principal variance is genuine and
@@ -229,7 +229,7 @@ def wide_profile(rng, D, g, second=False):
     each other by factors 9 .. 100 in variance although all of them are 1e-8 .. 1e-14 of the largest."""
     while True:
         ratios = [rng.choice(MILD_RATIOS) for _ in range(D - 1)]
-        ratios[g - 1] = rng.choice(WIDE_RATIOS)
+        ratios[g - 1] = w or rng.choice(WIDE_RATIOS)
         if second and D > 2:
             ratios[rng.choice([k for k in range(D - 1) if k != g - 1])] = rng.choice(WIDE_RATIOS[:3])
         s = [Fraction(1)]
@@ -252,10 +252,10 @@ def random_frame(rng, D):
     return cols
 
 
-def gen_wide_range(rng, N, D, g, axis_aligned=False, second=False):
+def gen_wide_range(rng, N, D, g, axis_aligned=False, second=False, w=None):
     """x = offset + sum_k s_k z_ik q_k: a random orthonormal frame q (or the coordinate axes: features in mixed units),
     z uniform or Gaussian of unit variance, standard deviations s from wide_profile; arbitrary doubles"""
-    s = [float(v) for v in wide_profile(rng, D, g, second)]
+    s = [float(v) for v in wide_profile(rng, D, g, second, w)]
     q = [[1.0 if a == b else 0.0 for b in range(D)] for a in range(D)] if axis_aligned else random_frame(rng, D)
     rng.shuffle(q)
     off = [rng.choice([0.0, rng.uniform(-1, 1), rng.uniform(-1, 1)]) for _ in range(D)]
@@ -273,12 +273,16 @@ def gen_wide_emb(rng, reps):
     the wide gap) and d = g + 1 (the boundary lies INSIDE the block of tiny variances: the last kept and the first
     dropped direction both carry 1e-8 .. 1e-14 of the total variance, yet differ by a factor 9 .. 100)"""
     cases = []
+    turn = 0
     for rep in range(reps):
         for D in (2, 3, 4, 5):
             for g in range(1, D):
-                for d in (g + 1, g):
+                for d, w in ((g + 1, "cycle"), (g + 1, None), (g, None)):
+                    if w == "cycle":         # 1e-4, 3e-5, 1e-5 in turn: ratios binary64 resolves comfortably
+                        w = WIDE_RATIOS[turn % 3]
+                        turn += 1
                     N = rng.choice([8, 12, 20, 33])
-                    X, s = gen_wide_range(rng, N, D, g, axis_aligned=(rep % 4 == 3), second=(rep % 2 == 1))
+                    X, s = gen_wide_range(rng, N, D, g, axis_aligned=(rep % 4 == 3), second=(rep % 2 == 1), w=w)
                     cases.append({"kind": "EMB", "solver": "dense", "N": N, "D": D, "d": d, "X": X,
                                   "style": "wide-range", "sd_profile": ["%.0e" % v for v in s], "agree": False})
     return cases
@@ -430,7 +434,7 @@ def kept_variance_relative(Cm, P, ev, order, eta, D, d):
                             "min(|lambda_j - lambda|, eta^2 / |lambda_j - lambda|) with eta = %.3e the residual bound of a "
                             "backward-stable solve of the binary64 covariance: the column mixes in another principal "
                             "direction (sin^2 of the angle >= %.3g)" % (
-                                cc, ordinal(D - i), float(lam), others, float(err),
+                                cc, float(rho[cc]), ordinal(D - i), float(lam), others, float(err),
                                 float(err / lam) if lam > 0 else float("inf"), float(tol), float(eta),
                                 min(1.0, float(err / max(hi - enc[0][0], floor)))))
     return "ok", ""
